@@ -60,7 +60,7 @@ func main() {
 		gen.Pool()
 		signing(r)
 		backoffs(r)
-		r.Floor(int64(r.Pick(400, 5000)), int64(r.Pick(300, 3000)))
+		r.Floor(int64(r.Pick(400, 5000)), int64(r.Pick(300, 1500)))
 	})
 }
 
